@@ -8,6 +8,7 @@ package main
 
 import (
 	"fmt"
+	"math/rand"
 	"sort"
 	"strings"
 
@@ -33,7 +34,9 @@ type nodeCase struct {
 	restarted    bool
 	slashSeen    map[string]bool
 	lastRefErr   string
+	lastSigner   int
 	ln           *ledgerNames
+	mutants      map[string]string // block name -> broken rule ("" = valid block on top of a mutant)
 	blockTxs     map[string][]*txInfo // block name -> its transactions (coinbase first)
 	delivered    map[string]bool
 	rejected     map[string]bool // delivered only in a deliberately corrupted variant
@@ -46,7 +49,7 @@ func (nc *nodeCase) emit(op, res string) { nc.c.Op(op, res) }
 func newNodeCase(c *Ctx, mode string, E uint64, nVal, local int, pend uint64) *nodeCase {
 	env := newNodeEnv(E, nVal, local, pend)
 	nc := &nodeCase{c: c, env: env, nm: newNamer(), delivered: map[string]bool{}, rejected: map[string]bool{}, mode: mode,
-		finalEver: map[string]bool{"b0": true}, recvValid: map[string]map[int]bool{}, justSeen: map[string]bool{"b0": true}, admitted: map[string]bool{}, slashSeen: map[string]bool{}, ln: newLedgerNames(), blockTxs: map[string][]*txInfo{}}
+		finalEver: map[string]bool{"b0": true}, recvValid: map[string]map[int]bool{}, justSeen: map[string]bool{"b0": true}, admitted: map[string]bool{}, slashSeen: map[string]bool{}, ln: newLedgerNames(), blockTxs: map[string][]*txInfo{}, mutants: map[string]string{}}
 	env.useOutsiderKey()
 	ref, err := newNode(env, nil)
 	if err != nil {
@@ -66,7 +69,7 @@ func newNodeCase(c *Ctx, mode string, E uint64, nVal, local int, pend uint64) *n
 	if local >= 0 {
 		localS = fmt.Sprint(local)
 	}
-	nc.emit(fmt.Sprintf("reset E=%d V=%d local=%s pend=%d", E, nVal, localS, pend), nc.dump("ok"))
+	nc.emit(fmt.Sprintf("reset E=%d V=%d local=%s pend=%d interval=%d%s", E, nVal, localS, pend, nodeInterval, caseTag), nc.dump("ok"))
 	return nc
 }
 
@@ -113,6 +116,7 @@ func (nc *nodeCase) defBlock(parent string, slotSkip uint64, arb byte, txInfos [
 		nc.lastRefErr = fmt.Sprint(r.err, r.panic)
 		return ""
 	}
+	nc.lastSigner = slotOrder(ck.Timestamp, b.Timestamp, len(nc.env.keys))
 	return nc.registerBlock(parent, b, arb, txInfos)
 }
 
@@ -125,6 +129,9 @@ func (nc *nodeCase) registerBlock(parent string, b *types.Block, arb byte, txInf
 	}
 	slot := (b.Timestamp - nc.nm.blocks["b0"].Timestamp) / nodeInterval
 	op := fmt.Sprintf("def %s parent=%s h=%d slot=%d rank=%d arb=%d", name, parent, b.Height, slot, rank(b.Hash()), arb)
+	if nc.mode == "rules" {
+		op += fmt.Sprintf(" ts=%d signer=%d", b.Timestamp-nc.nm.blocks["b0"].Timestamp, nc.lastSigner)
+	}
 	if nc.ledgerMode() {
 		kinds := make([]byte, len(b.Transactions[0].Outputs))
 		for i := range kinds {
@@ -211,6 +218,13 @@ func (nc *nodeCase) deliver(name string, sups ...supSpec) procResult {
 	}()
 	nc.sut.quiesce()
 	nc.delivered[name] = true
+	if k, ok := nc.mutants[name]; ok && k != "" {
+		for _, cf := range contextFreeMutants {
+			if cf == k {
+				nc.rejected[name] = true
+			}
+		}
+	}
 	nc.emit(op, nc.dump(r.String()))
 	nc.oracleAfterEvent(op, r)
 	return r
@@ -293,6 +307,9 @@ func (nc *nodeCase) ancestors(name string) []string {
 
 func (nc *nodeCase) oracleAfterEvent(op string, r procResult) {
 	n := nc.sut
+	if nc.mode == "rules" && r.panic == "" {
+		nc.oracleRules(op)
+	}
 	sig := func(prop, what string) string { return prop + ":" + what }
 	// C12: never panics
 	if r.panic != "" {
@@ -586,14 +603,29 @@ func runNode(c *Ctx) {
 		replayNode(c, lines)
 	}
 	for i := 0; i < c.N; i++ {
-		switch mode {
-		case "ledger":
-			genCaseLedger(c, mode)
-		default:
-			genCaseTree(c, mode)
-		}
+		runNodeCase(c, mode, c.Seed, i)
 	}
 }
+
+// runNodeCase generates and runs case number k of a seed. Every case has its own PRNG
+// derived from (seed, k), and its reset line records both, so that one case can be re-run
+// alone (replay) exactly.
+func runNodeCase(c *Ctx, mode string, seed int64, k int) {
+	c.Rng = rand.New(rand.NewSource(seed*1000003 + int64(k)*7919 + 17))
+	caseTag = fmt.Sprintf(" mode=%s seed=%d case=%d", mode, seed, k)
+	defer func() { caseTag = "" }()
+	switch mode {
+	case "ledger":
+		genCaseLedger(c, mode)
+	case "rules":
+		genCaseRules(c, mode)
+	default:
+		genCaseTree(c, mode)
+	}
+}
+
+// caseTag is appended to the reset line of generated cases (empty for literal replays).
+var caseTag string
 
 func genCaseTree(c *Ctx, mode string) {
 	rng := c.Rng
@@ -773,6 +805,7 @@ func (nc *nodeCase) campaign() {
 // replayNode re-executes recorded op lines (reset/def/deliver/vote) on the real node.
 func replayNode(c *Ctx, lines []string) {
 	var nc *nodeCase
+	skipGenerated := false
 	kv := func(w []string) map[string]string {
 		m := map[string]string{}
 		for _, x := range w {
@@ -789,10 +822,23 @@ func replayNode(c *Ctx, lines []string) {
 			continue
 		}
 		m := kv(w[1:])
+		if skipGenerated && w[0] != "reset" {
+			continue
+		}
 		switch w[0] {
 		case "reset":
 			if nc != nil {
 				nc.close()
+				nc = nil
+			}
+			skipGenerated = false
+			if m["seed"] != "" && m["case"] != "" {
+				// a generated case: re-run its generator instead of interpreting the lines
+				var sd int64
+				fmt.Sscan(m["seed"], &sd)
+				runNodeCase(c, m["mode"], sd, atoi(m["case"]))
+				skipGenerated = true
+				continue
 			}
 			local := -1
 			if m["local"] != "-" {
